@@ -51,7 +51,7 @@ impl Prop for C09 {
     type Case = Case;
     const ID: &'static str = "C09";
     const NUM: u64 = 9;
-    const RULE: &'static str = "contiguous digraphs (order 1..14 quick / 1..60 thorough; uniform densities and 15 structured families incl. two circuits joined by one arc) in all five representations, and AdjacencyMap digraphs with non-contiguous vertex ids (subsets of {0..14, 37, 64, 1000, 2^20}) built through the public API; enum leg: every digraph of order <=4 (quick) / <=5 (thorough). Non-trivial = at least two components of size >=2, or an arc between two different components; distinct = distinct serialised case.";
+    const RULE: &'static str = "contiguous digraphs (order 1..14 quick / 1..60 thorough; uniform densities and 15 structured families incl. two circuits joined by one arc) in all five representations, and AdjacencyMap digraphs with non-contiguous vertex ids (subsets of {0..14, 37, 64, 1000, 2^20}) built through the public API; enum leg: every digraph of order <=4 (quick) / <=5 (thorough). About one random case in 25 has a large order (17..140, weighted towards 63..66, 96, 127..130, 140; at most 700 arcs). Non-trivial = at least two components of size >=2, or an arc between two different components; distinct = distinct serialised case.";
     const ASSUMPTIONS: &'static [&'static str] = &["order of components and of vertices inside them is free (sets are compared)"];
 
     fn legs(tier: Tier) -> Vec<Leg> {
